@@ -620,6 +620,10 @@ func (s *ObjectStorage) EncodedObjectSize(h plumbing.Hash) (size int64, err erro
 			if perr != nil {
 				return 0, perr
 			}
+			// The Packfile holds a cursor (one reference on the shared
+			// .pack descriptor) from its first use on: without Close the
+			// descriptor stays pinned for good.
+			defer func() { _ = p.Close() }()
 			size, err = p.GetSizeByOffset(offset)
 			if err == nil {
 				return size, nil
